@@ -55,8 +55,8 @@ Print Assumptions no_edge_to_removed.
 
 (* the whole text pipeline (cum cutoff, sort, top N, rebuilds, edge cutoff): whatever is shown is an
    entry of the untrimmed report with the same numbers *)
-Theorem text_report_nodes_unchanged : forall o pr n v,
-  In (n, v) (g_nodes (t_g (new_trimmed_text o pr))) -> In (n, v) (g_nodes (report_graph o pr None)).
+Theorem text_report_nodes_unchanged : forall o pr n v, paths_stable o pr = true ->
+  In (n, v) (g_nodes (t_g (new_trimmed_text o pr))) -> In (n, v) (g_nodes (report_graph o (rebuild o pr) None)).
 Proof. exact text_report_nodes_unchanged_lemma. Qed.
 Print Assumptions text_report_nodes_unchanged.
 
@@ -72,7 +72,7 @@ Print Assumptions accounting_for_is_sum_flat.
    (R_C05.expected_shown, computed from the definition sums), not proved: it needs uniqueness of the
    sorted order (C08). *)
 Definition text_expected (o : ropts) (pr : prepared) : list (node_info * nval) :=
-  let g0 := report_graph o pr None in
+  let g0 := report_graph o (rebuild o pr) None in
   let cut := if 0 <? o_nodecutoff o
              then filter (fun e => negb (abs64 (nv_cum (snd e)) <? o_nodecutoff o)) (g_nodes g0) else g_nodes g0 in
   let sorted := sort_by (if o_cumsort o then cum_name_less else flat_name_less) cut in
@@ -80,8 +80,11 @@ Definition text_expected (o : ropts) (pr : prepared) : list (node_info * nval) :
   then (let top := filter (fun e => negb (abs64 (nv_cum (snd e)) <? 0)) (firstn (Z.to_nat (o_nodecount o)) sorted) in
         if Nat.eqb (List.length top) (List.length sorted) then sorted else top)
   else sorted.
-Definition full_statement_text_removed_exactly : Prop :=
+Definition text_removed_exactly_unconditional : Prop :=
   forall o pr, g_nodes (t_g (new_trimmed_text o pr)) = text_expected o pr.
+(* outside F40 (see the end of this file) *)
+Definition full_statement_text_removed_exactly : Prop :=
+  forall o pr, paths_stable o pr = true -> g_nodes (t_g (new_trimmed_text o pr)) = text_expected o pr.
 
 (* non-vacuity: removing the middle of a chain r -> m -> l keeps r and l unchanged, joins them by a
    residual edge of the full weight, and the direct edge r -> l of another sample is summed in *)
@@ -94,3 +97,50 @@ Example middle_removed :
   ew Z Z.eqb 1 3 (g_edges gt) = (7, 0) /\ eres Z Z.eqb 1 3 (g_edges gt) = true /\
   ew Z Z.eqb 1 3 (g_edges gu) = (2, 0) /\ List.length (g_nodes gt) = 2%nat.
 Proof. vm_compute. repeat split; reflexivity. Qed.
+
+(* a report asked for without any limit (nodecount 0, node cutoff 0 -- by the options or by
+   trim=false) shows every node of the untrimmed graph, in the active order *)
+Theorem untrimmed_request_shows_all : forall o pr,
+  o_nodecount o = 0 -> o_nodecutoff o = 0 ->
+  g_nodes (t_g (new_trimmed_text o pr)) =
+  sort_by (if o_cumsort o then cum_name_less else flat_name_less) (g_nodes (report_graph o (rebuild o pr) None)).
+Proof. exact untrimmed_request_lemma. Qed.
+Print Assumptions untrimmed_request_shows_all.
+
+(* ---- F40: the path clean-up of Report.newGraph is applied again on every rebuild and is not
+   idempotent when the base name of a source_path directory occurs twice in a file name
+   (/build/proj/w/proj/d/d.go with source_path=/home/me/proj: first "w/proj/d/d.go", then "d/d.go").
+   The kept set of the first build then no longer matches in the rebuild: an entry far above the
+   cutoff disappears.  [text_report_nodes_unchanged] carries the hypothesis [paths_stable]; the
+   "removed exactly" clause is refuted by this witness (found by the end-to-end stream). *)
+Definition f40_profile : profile :=
+  {| p_sampletype := [{| vt_type := "cpu"; vt_unit := "count" |}]; p_defaultsampletype := "";
+     p_sample := [ {| s_loc := [2; 1]; s_val := [70]; s_label := []; s_numlabel := []; s_numunit := [] |};
+                   {| s_loc := [3; 1]; s_val := [1]; s_label := []; s_numlabel := []; s_numunit := [] |};
+                   {| s_loc := [1]; s_val := [50]; s_label := []; s_numlabel := []; s_numunit := [] |} ];
+     p_mapping := [];
+     p_location := [ {| l_id := 1; l_mapping := 0; l_addr := 16; l_lines := [{| ln_fn := 1; ln_line := 10; ln_col := 0 |}]; l_folded := false |};
+                     {| l_id := 2; l_mapping := 0; l_addr := 32; l_lines := [{| ln_fn := 2; ln_line := 20; ln_col := 0 |}]; l_folded := false |};
+                     {| l_id := 3; l_mapping := 0; l_addr := 48; l_lines := [{| ln_fn := 3; ln_line := 30; ln_col := 0 |}]; l_folded := false |} ];
+     p_function := [ {| f_id := 1; f_name := "main"; f_sysname := "main"; f_file := "m.go"; f_startline := 0 |};
+                     {| f_id := 2; f_name := "d"; f_sysname := "d"; f_file := "/build/proj/w/proj/d/d.go"; f_startline := 0 |};
+                     {| f_id := 3; f_name := "tiny"; f_sysname := "tiny"; f_file := "t.go"; f_startline := 0 |} ];
+     p_comments := []; p_docurl := ""; p_dropframes := ""; p_keepframes := ""; p_timenanos := 0;
+     p_durationnanos := 0; p_periodtype := None; p_period := 0 |}%string.
+Definition f40_opts : ropts :=
+  mk_ropts "lines" false false "" false false false "" "" "text" false 0 6 0 "/home/me/proj" ""%string.
+Definition f40_prepared : prepared := snd (prepare (fun _ _ => ""%string) f40_opts f40_profile).
+
+Theorem text_removed_exactly_refuted : ~ text_removed_exactly_unconditional.
+Proof.
+  intros H. specialize (H f40_opts f40_prepared). vm_compute in H. discriminate H.
+Qed.
+Print Assumptions text_removed_exactly_refuted.
+
+(* the witness is in the class, and the class is not everything *)
+Example f40_in_class : paths_stable f40_opts f40_prepared = false.
+Proof. vm_compute. reflexivity. Qed.
+Example stable_paths_exist :
+  paths_stable (mk_ropts "lines" false false "" false false false "" "" "text" false 0 6 0 "/home/me/proj" "/build"%string)
+               f40_prepared = true.
+Proof. vm_compute. reflexivity. Qed.
